@@ -29,21 +29,19 @@ IDS = [0, 1, 2, 100, 101]
 WS = [(n, sp) for n in range(3) for sp in range(2)]
 NTOK = 3
 
-ANCHOR_UNWRAP = "tok, err := auth.TokenUnwrap(s.ID, token)"
-ANCHOR_STORE = "caches.Add(caches.TokenCache, token, tok)"
-
-
 def instrument(ck):
-    """Instrumented copy of router/auth.go with the two yield points; fails loudly if the anchors moved."""
-    src = open(os.path.join(vf.REPO, "internal/router/auth.go")).read()
-    if src.count(ANCHOR_UNWRAP) != 1 or src.count(ANCHOR_STORE) != 1:
-        return None, "anchors not found exactly once in internal/router/auth.go: %r x%d, %r x%d" % (
-            ANCHOR_UNWRAP, src.count(ANCHOR_UNWRAP), ANCHOR_STORE, src.count(ANCHOR_STORE))
-    src = src.replace(ANCHOR_UNWRAP, "if VerifC21BeforeUnwrap != nil {\nVerifC21BeforeUnwrap(token)\n}\n\n" + ANCHOR_UNWRAP)
-    src = src.replace(ANCHOR_STORE, "if VerifC21BeforeStore != nil {\nVerifC21BeforeStore(token)\n}\n\n" + ANCHOR_STORE)
-    src += "\n// yield points of the C21 harness (verif overlay only)\nvar VerifC21BeforeUnwrap, VerifC21BeforeStore func(token string)\n"
+    """Instrumented copy of router/auth.go with the two yield points, placed by go/ast on the call shapes
+    (harness/C21/instrument/main.go): the statement calling auth.TokenUnwrap / tokens.Unwrap and the statement calling
+    caches.Add(caches.TokenCache, ...) inside Authenticate.  Fails loudly only when a shape is not there exactly once."""
     p = os.path.join(ck.work, "auth_instrumented.go")
-    open(p, "w").write(src)
+    tool = os.path.join(ck.work, "c21-instrument")
+    rc, out = vf.sh(["go", "build", "-o", tool, os.path.join(vf.HARNESS, "C21", "instrument", "main.go")],
+                    cwd=vf.REPO, env=vf.goenv(), timeout=600)
+    if rc != 0:
+        return None, "instrumenter does not build:\n" + out[-1500:]
+    rc, out = vf.sh([tool, os.path.join(vf.REPO, "internal/router/auth.go"), p], timeout=120)
+    if rc != 0 or not os.path.exists(p):
+        return None, out[-1500:]
     return p, ""
 
 
@@ -72,6 +70,14 @@ CORPUS = [
     # interleavings: revocation / un-revocation / flush / purge / expiry / restart inside a request
     [["N", 1, 100], ["N", 2, 100], ["I", G(0), [["B", 0]], []], ["I", G(1), [], [["B", 0], ["D", 0]]], ["VR", G(1)],
      ["I", G(1), [["PT"]], [["PB"], ["B", 1]]], ["VR", G(1)], ["I", G(1), [["F"]], [["T", 200]]], ["VR", G(1)], ["VR", G(0)]],
+    # a token kept in use through the router (every hit renews the cache entry) must still expire: fill, advance, hit,
+    # advance past Expires with no purge in between, validate again through the router
+    [["N", 1, 30], ["VR", G(0)], ["T", 20], ["VR", G(0)], ["T", 11], ["VR", G(0)], ["VR", G(0)], ["T", 40], ["VR", G(0)],
+     ["VV", G(0)]],
+    # fill, revoke, fill-after-purge: the cache fill of a request that validated before the revocation lands after the
+    # purge; every later request (cache hit) must refuse, also after time has passed
+    [["N", 1, 1000], ["VR", G(0)], ["PT"], ["I", G(0), [], [["B", 0]]], ["VR", G(0)], ["T", 30], ["VR", G(0)], ["VR", G(0, 1)],
+     ["D", 0], ["VR", G(0)]],
     [["N", 1, 100], ["B", 0], ["VV", G(0)], ["PB"], ["VV", G(0)], ["EB", 0], ["D", 0], ["VR", G(0)], ["ET", 0, 0], ["B", 0],
      ["B", 0], ["VR", G(0)], ["F"], ["I", G(0), [], [["B", 0], ["VV", G(0)]]], ["VR", G(0)], ["VX", G(0)]],
 ]
@@ -117,7 +123,14 @@ def gen_history(rng, length):
         if ntok < NTOK and (ntok == 0 or r < 0.12):
             ops.append(["N", 0 if rng.random() < 0.08 else rng.randint(1, 3), rng.choice([5, 30, 90, 200, 1000])])
             ntok += 1
-        elif r < 0.30 and ntok:
+        elif r < 0.18 and ntok:
+            # the two shapes that need several steps: in-use token crossing its expiry; cache fill after a revocation purge
+            n = rng.randrange(ntok)
+            if rng.random() < 0.5:
+                ops += [["VR", G(n)], ["T", rng.choice([4, 10, 30, 59])], ["VR", G(n)], ["T", rng.choice([1, 30, 59, 100])], ["VR", G(n)]]
+            else:
+                ops += [["ET", n, 0], ["I", G(n), [], [["B", n]]], ["VR", G(n)]]
+        elif r < 0.32 and ntok:
             pre = [simple(False) for _ in range(rng.choice([0, 0, 1]))]
             mid = [simple(False) for _ in range(rng.choice([0, 1, 1, 2]))]
             ops.append(["I", wire(), pre, mid])
@@ -207,14 +220,14 @@ def run(ck):
                       "and foreign ids, flush, cache purges and single evictions, clock advances 1..300 s incl. the sweeper period, "
                       "restart with another key, validations through Authenticate / cipher.Validate / cipher.Extract of genuine, "
                       "re-spelled, unissued and altered strings, and router requests with operations injected between their atomic "
-                      "actions); 7 corpus histories first. distinct_nontrivial = distinct (validator, reason) x (cache hit | miss) "
+                      "actions); 9 corpus histories first. distinct_nontrivial = distinct (validator, reason) x (cache hit | miss) "
                       "x decision classes observed on the real code, counted per history with at least one accept and one refusal")
     ck.assume("AES-GCM with an Argon2id key is an ideal AEAD: only ciphertexts produced by tokens.New under the current key decrypt "
               "(Genuine/Altered split of the model; explicit premise of C21_altered_rejected)",
               "the SQLite table 'blacklist' keeps exactly the inserted and not deleted ids; reads do not fail",
               "the clock does not advance inside one atomic action (Unwrap's expiry test and its revocation look-up see one instant)",
               "a restart is the only way the token key changes (key.go); it empties the in-memory caches and ends requests in flight")
-    ck.trusted("harness/C21/c21_test.go + zz_caches_peek.go (overlay), the textual instrumentation of router/auth.go (two yield points), "
+    ck.trusted("harness/C21/c21_test.go + zz_caches_peek.go (overlay), the go/ast instrumentation of router/auth.go (harness/C21/instrument: two yield points), "
                "props/C21.py generators, eviction-schedule inference and the Python oracle",
                "correspondence evaluated by vm_compute in a generated cases file (Token.Model.first_bad)")
     ck.coq_stage(GROUP, theorems=["C21_decisions_exact", "C21_accept_iff", "C21_altered_rejected", "C21_old_refuted"])
